@@ -760,6 +760,9 @@ def op_checksig_schnorr(stack, tx_obj, input_index):
     point = S256Point.parse_xonly(pubkey)
     if len(signature) == 65:
         hash_type = signature[-1]
+        # BIP341: an explicit hash type byte has to be one of the defined values
+        if hash_type not in (1, 2, 3, 0x81, 0x82, 0x83):
+            return False
         signature = signature[:-1]
     elif len(signature) == 0:
         stack.append(encode_num(0))
@@ -771,7 +774,8 @@ def op_checksig_schnorr(stack, tx_obj, input_index):
     if point.verify_schnorr(msg, sig):
         stack.append(encode_num(1))
     else:
-        stack.append(encode_num(0))
+        # BIP342: a non-empty signature that does not verify fails the script
+        return False
     return True
 
 
@@ -789,6 +793,9 @@ def op_checksigadd_schnorr(stack, tx_obj, input_index):
     point = S256Point.parse_xonly(pubkey)
     if len(signature) == 65:
         hash_type = signature[-1]
+        # BIP341: an explicit hash type byte has to be one of the defined values
+        if hash_type not in (1, 2, 3, 0x81, 0x82, 0x83):
+            return False
         signature = signature[:-1]
     elif len(signature) == 0:
         stack.append(encode_num(n))
